@@ -229,3 +229,30 @@ package main
 //@   check [C07,C11,C15] happened("NewConfig", 1) ==> callarg("NewConfig", 1, 1) == cameraModel && callarg("NewConfig", 1, 0) == callres("New", 1).0 && callarg("New", 1, 0) == old(c.ConfigDir)
 //@   check [C07,C11,C15] result == nil ==> happened("NewConfig", 1)
 //@   check [C07,C11,C15] happened("NewConfig", 1) ==> result == nil ==> callres("NewConfig", 1).1 == nil && c.Motion == deref(callres("NewConfig", 1).0)
+
+// ---------------------------------------------------------------------------
+// Request paths (C16): D-Bus snapshot and test-recording requests run on their own
+// goroutines, concurrently with handleConn's frame loop. snapshot.go's mu serialises
+// the requests and guards the package's request state.
+//@ guarded global processor by mu
+//@ guarded global previousSnapshotTime by mu
+//@ guarded global previousSnapshotID by mu
+
+// newSnapshot: everything it reads is read with mu held; the frame it returns is a
+// fresh copy made by GetRecentFrame. (The processor it finds published is assumed to
+// be fully constructed - see the finding on handleConn's unlocked assignment.)
+//@ func newSnapshot
+//@   mode permissive
+//@   thread any
+//@   callees [C16] GetRecentFrame, Since
+//@   call GetRecentFrame#1 given processor.frameLoop != nil && heapobj(processor.frameLoop) && processor.frameLoop.storage() && !processor.frameLoop.mu.held && 0 <= processor.frameLoop.currentIndex && processor.frameLoop.currentIndex < processor.frameLoop.size
+//@   call GetRecentFrame#1 given forall i int :: 0 <= i && i < processor.frameLoop.size ==> cptvframe.rowsOf(processor.frameLoop.frames[i])
+//@   call GetRecentFrame#1 assert [C16] $0 == processor && ncalls("Lock") == 1 && ncalls("Unlock") == 0
+//@   check [C16] ncalls("Lock") == 1 && ncalls("Unlock") == 1
+//@   check [C16] result0 != nil ==> ncalls("GetRecentFrame") == 1 && result0 == callres("GetRecentFrame", 1).1 && result1 == nil
+
+// newSnapshotRecording: a test-recording request only raises the processor's flag.
+//@ func newSnapshotRecording
+//@   mode permissive
+//@   thread any
+//@   check [C16] ncalls("Lock") == 1 && ncalls("Unlock") == 1
